@@ -146,6 +146,31 @@ func c2Entry(c *Ctx) {
 				if bd(a) == want {
 					found = true
 				}
+				// ... or hands on a function literal / method value that takes it (final.appendOrElse(func() {
+				// final.EncodeLevel(ent.Level, final) }, ent.Level.String))
+				if mk, isMk := a.(*ssa.MakeClosure); isMk {
+					for _, b := range mk.Bindings {
+						if bd(b) == want {
+							found = true
+						}
+					}
+					if lf, isF := mk.Fn.(*ssa.Function); isF {
+						for _, cl2 := range Calls(lf) {
+							for _, a2 := range Args(cl2) {
+								if bd(a2) == want {
+									found = true
+								}
+							}
+						}
+						for _, r := range Returns(lf) {
+							for _, rv := range RetVals(r) {
+								if bd(rv) == want {
+									found = true
+								}
+							}
+						}
+					}
+				}
 			}
 		}
 		return found
